@@ -25,6 +25,8 @@
 #include <type_traits>
 #include <iostream>
 #include <mutex>
+#include <atomic>
+#include <thread>
 #include <unistd.h>
 
 #ifndef WENCRY_VERIF
@@ -651,6 +653,46 @@ OpOut verify(const bytes &file, const bytes &key, const PipeCfg &pc, bool with_o
   });
   finish(o, in, file, with_out ? &out : NULL);
   return o;
+}
+
+std::vector<int> verify_concurrent(const bytes &file, const std::vector<bytes> &keys, int T, int chunk, int refill_units, int reps)
+{
+  PipeCfg pc;
+  pc.T = T;
+  pc.chunk = chunk;
+  set_chunk(pc); // the hooked constants are set once, before any thread exists
+  if (refill_units > 0)
+    set_refill(refill_units);
+  std::vector<int> ok(keys.size(), 0);
+#ifndef VS_SHIM
+  std::atomic<int> ready{0};
+  std::vector<std::thread> ts;
+  for (size_t t = 0; t < keys.size(); t++)
+    ts.emplace_back([&, t] {
+      ready++;
+      while (ready.load() < (int)keys.size())
+      {
+      }
+      for (int r = 0; r < reps; r++)
+      {
+        MemFile in;
+        in.d = file;
+        FILE *fi = mf_open(&in, "rb");
+        bytes k = keys[t];
+        k.resize(16);
+        Settings s((char)-1, (char)-1, true);
+        runcrypt rc(fi, NULL, k.data(), s, (u8_t)T);
+        if (rc.execute_verify(file.size()))
+          ok[t]++;
+      }
+    });
+  for (auto &th : ts)
+    th.join();
+#else
+  (void)file;
+  (void)reps;
+#endif
+  return ok;
 }
 
 // ------------------------------------------------------------------------------------------------
